@@ -19,11 +19,11 @@ CONSTANTS Procs, Scenario, MaxIno, KMaxLinks,
           TolerateEEXIST,    \* TRUE = the code; FALSE = mechanism removed (a racing creator makes the loser fail)
           MaxAttack          \* attacker budget: renames of directories (never the root's own dentry) between any two steps
 
-VARIABLES fs, fs0, pc, k, lasterr, cur, parts, res, nextIno,
+VARIABLES fs, fs0, pth, pc, k, lasterr, cur, parts, res, nextIno,
           who,     \* the process that made the last step (read by the schedule generator only)
           natk, everIn, outsideMk   \* attacker budget used; ghost: inodes ever inside the root; did a library mkdirat use a parent that never was inside?
 
-vars == <<fs, fs0, pc, k, lasterr, cur, parts, res, nextIno, who, natk, everIn, outsideMk>>
+vars == <<fs, fs0, pth, pc, k, lasterr, cur, parts, res, nextIno, who, natk, everIn, outsideMk>>
 
 Ino == 1..MaxIno
 BaseDents == {<<P, "root", R>>, <<P, "out", O>>, <<O, "secret", SECRET>>}
@@ -35,7 +35,7 @@ MkFs(nodes) ==
                               THEN nodes[CHOOSE j \in DOMAIN nodes : nodes[j].id = i].b ELSE <<>>]]
 
 FollowFlags == [follow |-> TRUE, dir |-> FALSE, opath |-> TRUE, nosym |-> FALSE]
-Path(p) == Scenario.paths[p]
+Path(p) == pth[p]     \* the callers' paths: a variable only so that TraceMkdir2 can replay many recorded cases in one run
 
 \* Ancestors::next (src/utils/path.rs:172-232)
 RECURSIVE AncFrom(_, _)
@@ -51,7 +51,7 @@ AncFrom(raw, i) ==
 Attempts(raw) == << [anc |-> raw, rem |-> <<>>] >> \o AncFrom(raw, Len(raw))
 
 Init ==
-    /\ fs0 = MkFs(Scenario.nodes) /\ fs = fs0
+    /\ fs0 = MkFs(Scenario.nodes) /\ fs = fs0 /\ pth = Scenario.paths
     /\ pc = [p \in Procs |-> "try"] /\ k = [p \in Procs |-> 1] /\ lasterr = [p \in Procs |-> ""]
     /\ cur = [p \in Procs |-> R] /\ parts = [p \in Procs |-> <<>>] /\ res = [p \in Procs |-> Err("none")]
     /\ nextIno = Scenario.firstFree /\ who = ""
@@ -119,6 +119,7 @@ LibStep(p) ==
 
 Next == /\ ((\E p \in Procs : LibStep(p)) \/ Attack)
         /\ everIn' = everIn \cup ReachFrom(fs', {R})
+        /\ pth' = pth
 Spec == Init /\ [][Next]_vars
 
 AllDone == \A p \in Procs : pc[p] = "done"
